@@ -72,6 +72,23 @@ def cases(tier, seed):
             if t[0] == "equ":
                 for prime in ("LB-{}", "LB+{}", "{}+1"):
                     yield {"pos": pos, "l": list(t), "op": None, "r": None, "prime": prime}
+        # symbols whose names read as numbers in some notation: hex digits with or without a trailing H, a leading digit
+        # (only the combinations that are plainly valid: the known findings are judged under their own names)
+        if pos not in ("fcb", "fdb", "rmb", "equ"):
+            lits = [t for t in CORE_TERMS if t[0] == "lit"]
+            equs = [t for t in CORE_TERMS if t[0] == "equ"]
+            for t in equs + [("LB", None, None, None), ("LA", None, None, None)]:
+                yield {"pos": pos, "l": list(t), "op": None, "r": None, "names": "hexlike"}
+            for e in (equs if pos not in ("addr", "dir") else []):        # addr/dir: KF-C04-3 (constants' expressions and the direct mode)
+                for x in lits[:4] + equs[:3]:
+                    for op in ("+", "-"):
+                        yield {"pos": pos, "l": list(e), "op": op, "r": list(x), "names": "hexlike"}
+                    yield {"pos": pos, "l": list(x), "op": "+", "r": list(e), "names": "hexlike"}
+            for lab in (("LB", None, None, None), ("LA", None, None, None)):
+                for x in lits[:4]:
+                    yield {"pos": pos, "l": list(lab), "op": "+", "r": list(x), "names": "hexlike"}
+                    yield {"pos": pos, "l": list(lab), "op": "-", "r": list(x), "names": "hexlike"}
+                    yield {"pos": pos, "l": list(x), "op": "+", "r": list(lab), "names": "hexlike"}
         # the label sits on the very first statement of the program (statement index 0, address 0: no ORG, no EQU before it)
         if pos in ("fcb", "fdb", "rmb", "equ"):
             continue        # these positions do not evaluate symbols at all (KF-C04-1, KF-C04-2): the layout adds nothing there
@@ -114,6 +131,11 @@ def build(case):
     if pos == "equ":
         mid.append(" LDX #Q")
     mid.append("LA NOP")
+    if case.get("names") == "hexlike":
+        import re as _re
+        ren = {"EA": "EACH", "EB": "BH", "LA": "FACE", "LB": "ADDH", "Q": "9Q"}
+        sub = lambda ln: _re.sub(r"(?<![\w$'%])(EA|EB|LA|LB|Q)(?!\w)", lambda m: ren[m.group(1)], ln)
+        pre, mid, post = [sub(x) for x in pre], [sub(x) for x in mid], [sub(x) for x in post]
     return pre + mid + post, len(pre) + (3 if case.get("first") else 2) + len(primes)
 
 
@@ -201,6 +223,8 @@ def check_case(case):
     nprime = 0
     if case.get("first"):
         cell = cell.replace(pos + "|", pos + ".first|", 1)
+    if case.get("names"):
+        cell = cell.replace(pos + "|", pos + ".hexlike|", 1)
     if case.get("prime"):
         cell = cell.replace(pos + "|", "{}.after[{}]|".format(pos, case["prime"].format("S")), 1)
         nprime = sum(1 for t in (case["l"], case["r"]) if t and t[0] == "equ")
@@ -213,6 +237,9 @@ def check_case(case):
 
     # label values: LB is fixed by the ORG; LA is read from the symbol table when accepted
     syms = {"LB": 0x4000 if not case.get("first") else 0}
+    if out["kind"] == "OK" and case.get("names") == "hexlike":
+        back = {"EACH": "EA", "BH": "EB", "FACE": "LA", "ADDH": "LB", "9Q": "Q"}
+        out = dict(out, symbols={back.get(k, k): v for k, v in out["symbols"].items()})
     if out["kind"] == "OK":
         syms["LA"] = out["symbols"].get("LA")
         if out["symbols"].get("LB") != syms["LB"] or syms["LA"] is None:
